@@ -19,6 +19,7 @@ from pyvc.verify import Contract, Lemma, register
 from .shared_grid import ceil_div_term
 
 DP = "neuroglancer_scripts.dyadic_pyramid."
+MORE_TARGETS = (4, 16, 32, 128, 512, 1024)        # thorough tier
 TARGETS = (1, 2, 8, 64, 256)
 
 
@@ -88,6 +89,10 @@ class FillScalesOuter(Contract):
     use_at_call_sites = False
     configs = tuple((t, ms, u) for t in TARGETS for ms in (None,) for u in ("nm",)) + ((64, "max_scales", "um"), (64, None, None))
     timeout_ms = 40000
+
+    def configs_for(self, tier):
+        extra = tuple((t, None, "nm") for t in MORE_TARGETS) if tier == "thorough" else ()
+        return list(self.configs) + list(extra)
 
     def setup(self, c, cfg):
         t, ms, unit = cfg
@@ -188,6 +193,10 @@ class DownscaleInfo(Lemma):
     configs = tuple((t, u) for t in TARGETS for u in ("nm",)) + ((64, "um"), (8, "pm"))
     timeout_ms = 40000
     path_budget = 4000
+
+    def configs_for(self, tier):
+        extra = tuple((t, "nm") for t in MORE_TARGETS) if tier == "thorough" else ()
+        return list(self.configs) + list(extra)
 
     def run(self, c, cfg):
         from neuroglancer_scripts import dyadic_pyramid
